@@ -19,6 +19,7 @@ package override
 import (
 	"cmp"
 	"fmt"
+	"reflect"
 	"strings"
 
 	"github.com/compose-spec/compose-go/v2/tree"
@@ -102,6 +103,9 @@ func mergeYaml(e any, o any, p tree.Path) (any, error) {
 }
 
 func mergeMappings(mapping map[string]any, other map[string]any, p tree.Path) (map[string]any, error) {
+	if mapping == nil { // the base value was of a kind that has no mapping form: left to schema validation
+		mapping = map[string]any{}
+	}
 	for k, v := range other {
 		e, ok := mapping[k]
 		if !ok || strings.HasPrefix(k, "x-") {
@@ -131,7 +135,7 @@ func mergeLogging(c any, o any, p tree.Path) (any, error) {
 	// we override logging config if source and override have the same driver set, or none
 	d, ok1 := other["driver"]
 	o, ok2 := config["driver"]
-	if d == o || !ok1 || !ok2 {
+	if !ok1 || !ok2 || reflect.DeepEqual(d, o) {
 		return mergeMappings(config, other, p)
 	}
 	return other, nil
@@ -176,7 +180,7 @@ func mergeExtraHosts(c any, o any, _ tree.Path) (any, error) {
 	// Rewrite content of left slice to remove duplicate elements
 	i := 0
 	for _, v := range left {
-		if !slices.Contains(right, v) {
+		if !slices.ContainsFunc(right, func(e any) bool { return reflect.DeepEqual(e, v) }) {
 			left[i] = v
 			i++
 		}
